@@ -127,6 +127,12 @@ def check(run):
     run.floor('C14-PRNG', n, 2)
     order(run, p, funcs)
     memo(run, p)
+    argmut(run, p)
+    from .common import observed_rule
+    n = observed_rule(run, 'C14-OBSERVED', p, [f for f in funcs if f.cls is None],
+                      'the Series form is the list of values present: pdextract and the other module-level entry functions never take '
+                      'examples from a categorical column\'s declared levels (.cat.categories, unfiltered value_counts())')
+    run.floor('C14-OBSERVED', n, 8)
     from .. import ief
     ief.run_ief(run, 'C14', [p.fn(MOD + '.extract'), p.fn(MOD + '.pdextract')], triage=triage.IEF)
     run.floor('C14-IEF', run.units['ief_functions_checked'], 60)
@@ -186,3 +192,46 @@ def memo(run, p):
     run.ob('C14-MEMO', '%s::%s' % (f.rel, f.short), ok, 'cre() caches re.compile(%s) under memo[%s]' % (
         ', '.join(norm(a) for a in comp[0].args) if comp else '?', norm(keys[0].slice) if keys else '?'), fn=f)
     run.floor('C14-MEMO', 1, 1)
+
+
+ARG_ENTRIES = ['extract', 'pdextract', 'rexpy_streams', 'Extractor.__init__']
+ARGMUT_POSITIVE = '''
+def entry(strings, skip=False):
+    if skip and strings:
+        del strings[0]
+    keep = strings
+    keep.sort()
+    strings = list(strings)
+    strings.append('x')
+    return helper(keep)
+def helper(xs):
+    xs += ['y']
+    return xs
+'''
+
+
+def argmut(run, p):
+    from .common import param_mutations
+    from ..model import Program
+    run.rule('C14-ARGMUT', 'repeating a call gives the same result because a call leaves its arguments alone: no entry point (extract, '
+                           'pdextract, rexpy_streams, Extractor()) deletes from, stores into, sorts, extends or otherwise changes in '
+                           'place a container it was handed, directly or through a helper it passes it to')
+    # liveness: the embedded example must yield its three mutations (del, sort through an alias, += in a helper) and not the rebound append
+    pos = Program({'tdda/_argmut_example.py': ARGMUT_POSITIVE})
+    got = sorted(how for g, node, how in param_mutations(pos, pos.fn('entry'), 'strings'))
+    if got != ['del strings[0]', 'in-place xs += [\'y\']', 'keep.sort()']:
+        raise AnalysisError('argument-mutation analysis no longer matches its embedded example: %r' % (got,))
+    n = 0
+    for name in ARG_ENTRIES:
+        f = p.fn(MOD + '.' + name) if '.' not in name else p.method(*name.split('.'))
+        for q in f.posparams + list(f.kwonly):
+            if q in ('self', 'cls'):
+                continue
+            n += 1
+            ms = param_mutations(p, f, q, f.cls.qn if f.cls is not None else None)
+            if not ms:
+                run.ob('C14-ARGMUT', '%s::%s::%s' % (f.rel, f.short, q), True, 'argument %s of %s is never changed in place' % (q, f.short), fn=f)
+            for g, node, how in ms:
+                run.ob('C14-ARGMUT', '%s::%s::%s::%s' % (f.rel, f.short, q, how), False,
+                       'argument %s of %s is changed in place: %s in %s' % (q, f.short, how, g.short), fn=g, node=node)
+    run.floor('C14-ARGMUT', n, 30)
